@@ -688,7 +688,7 @@ func generateMem(ctx *core.Ctx) ([]memScript, error) {
 	}
 	gens := []gen{{"{2, 3}", 2}, {"{0, 1, 64, 65, 129}", 1}}
 	if ctx.Thorough() {
-		gens = []gen{{"{1, 2, 3, 4, 64, 65}", 2}, {"{0, 63, 128, 129, 4096, 4097}", 1}, {"{2}", 3}}
+		gens = []gen{{"{1, 2, 3, 64, 65}", 2}, {"{0, 4, 63, 128, 129, 4096, 4097}", 1}, {"{2}", 3}}
 	}
 	var all []memScript
 	seen := map[string]bool{}
@@ -739,6 +739,9 @@ func runMemScripts(ctx *core.Ctx, scripts []memScript) (obs []*observation, runs
 			// value and the key style rotate.  Big maps: two of the four variants.
 			if sc.N > 1000 && v != rot%4 && v != (rot+2)%4 {
 				continue
+			}
+			if sc.N >= 64 && len(sc.Ops) >= 2 && v != rot%4 && v != (rot+1)%4 {
+				continue // two-edit scripts on maps of a leaf or more: two variants (one per first use)
 			}
 			if !ctx.Thorough() && sc.N < 64 && v != rot%4 && v != (rot+1)%4 {
 				continue // quick tier: small maps get two variants (one per first use), the tree kind alternates
